@@ -85,11 +85,11 @@ def random_cut_case(rng, max_heavy, kinds=('$', '><'), max_parts=6, mol_kw=None,
             kw = dict(p_ring=0.3, p_arom=0.3, p_het5=0.8, p_lower5=(0.6 if mode is None else 1.0) if allow_lower5 else 0.0)
         kw.update(mol_kw or {})
         for _ in range(30):
-            g = M.gen_molecule(rng, max_heavy=max(max_heavy, 8), **kw)
+            g = M.gen_lower_exo_molecule(rng) if mode == 'lower_exo' else M.gen_molecule(rng, max_heavy=max(max_heavy, 8), **kw)
             if len(g) >= 5 and g.number_of_edges() >= len(g):
                 break
         nparts = rng.randint(2, min(len(g), 4))
-        keep = rng.random() < 0.7 or mode == 'het5_lower_kept'      # (kept: no cut runs through a ring)
+        keep = rng.random() < 0.7 or mode in ('het5_lower_kept', 'lower_exo')      # (kept: no cut runs through a ring)
         if not keep and rng.random() < 0.5:
             nparts = rng.randint(4, min(len(g), 9))      # ring systems spread over many fragments: base graphs with several cycles
         if render_opts is None:
@@ -103,7 +103,7 @@ def random_cut_case(rng, max_heavy, kinds=('$', '><'), max_parts=6, mol_kw=None,
         cap = max_parts if rng.random() < 0.85 else max(max_parts, 14)
         nparts = rng.randint(1, min(len(g), cap))
     part = M.partition(rng, g, k=nparts, keep_rings=keep)
-    if ringy and mode != 'het5_lower_kept' and len(g) <= 10 and g.number_of_edges() >= len(g) + 1 and rng.random() < 0.4:
+    if ringy and mode not in ('het5_lower_kept', 'lower_exo') and len(g) <= 10 and g.number_of_edges() >= len(g) + 1 and rng.random() < 0.4:
         # every atom a fragment of its own: the base graph is the (poly)cyclic molecule graph itself,
         # so its spelling has nodes that close several rings at once
         part = {n: i for i, n in enumerate(g.nodes)}
@@ -316,9 +316,23 @@ def make_resolver(case, on_dicts=None, **kw):
                 'ez_isomer' in str(dd) for d_ in dicts for g_ in d_.values() for _, dd in g_.nodes(data=True)):
             # a caller's own fragment graphs need not be keyed 0..n-1 (a node was removed, atoms are numbered as in a
             # coordinate file): the same graphs under increasing keys with gaps
+            how_ = _c.CONTEXT.get('fragment_keys_with_gaps')
             for d_ in dicts:
                 for name_ in list(d_):
-                    d_[name_] = nx.relabel_nodes(d_[name_], {k: 2 * k + 3 for k in d_[name_].nodes}, copy=True)
+                    if how_ == 'shuffled':
+                        # ... or the same keys, but the nodes were not inserted in increasing key order (a graph built
+                        # from an edge list)
+                        import random as _r
+                        old_ = d_[name_]
+                        order_ = list(old_.nodes)
+                        _r.Random(len(order_) * 7 + len(name_)).shuffle(order_)
+                        new_ = nx.Graph(**old_.graph)
+                        for k_ in order_:
+                            new_.add_node(k_, **old_.nodes[k_])
+                        new_.add_edges_from((a_, b_, dict(e_)) for a_, b_, e_ in old_.edges(data=True))
+                        d_[name_] = new_
+                    else:
+                        d_[name_] = nx.relabel_nodes(d_[name_], {k: 2 * k + 3 for k in d_[name_].nodes}, copy=True)
         if on_dicts:
             on_dicts(dicts)
         return MoleculeResolver.from_fragment_dicts(case['base_string'], dicts, **kw)
@@ -460,7 +474,7 @@ def random_shared_case(rng, max_heavy, p_share=0.6, ctor=None, label_insensitive
         nodes = list(c['base'].nodes)
         rng.shuffle(nodes)
         out.append(dict(base_string=G.to_string(ast), frag_string='{' + ','.join('#%s=%s' % kv for kv in items) + '}',
-                        base_order=pre, ctor=ctor or rng.choice(['string', 'string', 'from_graph']),
+                        base_order=pre, ctor=ctor or rng.choice(['string', 'string', 'from_graph', 'from_fragment_dicts']),
                         base_graph={'nodes': [[n, c['base'].nodes[n]['fragname']] for n in nodes],
                                     'edges': [[a, b, d['order']] for a, b, d in c['base'].edges(data=True)]}))
     gx = case['gx']
@@ -583,6 +597,44 @@ def add_virtual(rng, case, n_virtual=None, n_zero_edges=None, order=0):
 # ---------------------------------------------------------------------------------------------
 # multi-level hierarchies
 
+def share_label_on_a_bead(rng, desc, part, p=0.3):
+    """One bead with several '$' cuts of equal order that lead into DIFFERENT neighbouring fragments may carry the same
+    label on all of them ('[$a][#X][$a]'): every neighbouring fragment still finds exactly one partner.  desc: node ->
+    [(kind, label, order)]; rewritten in place; -> True if something was shared"""
+    owner = {}
+    for n, lst in desc.items():
+        for (k, lab, o) in lst:
+            owner.setdefault(lab, []).append((n, k, o))
+    did = False
+    # fragments that are joined by some cut: two of THEM must never both learn the common label (they would pair up)
+    joined = {frozenset((part[v[0][0]], part[v[1][0]])) for v in owner.values() if len(v) == 2}
+    for x, lst in list(desc.items()):
+        mine = [(k, lab, o) for (k, lab, o) in lst if k == '$' and len(owner.get(lab, [])) == 2]
+        groups = {}
+        for (k, lab, o) in mine:
+            other = [n for (n, _, _) in owner[lab] if n != x]
+            if len(other) == 1 and part[other[0]] != part[x]:
+                groups.setdefault(o, []).append((lab, other[0]))
+        for o, cand in groups.items():
+            seen_parts, keep = set(), []
+            for lab, other in cand:
+                if part[other] not in seen_parts and not any(frozenset((part[other], q)) in joined for q in seen_parts):
+                    seen_parts.add(part[other])
+                    keep.append((lab, other))
+            if len(keep) >= 2 and rng.random() < p:
+                first = keep[0][0]
+                for lab, other in keep[1:]:
+                    # the partner fragment must not already know the common label
+                    if any(l2 == first for n2, l in desc.items() if part[n2] == part[other] for (_, l2, _) in l):
+                        continue
+                    desc[x] = [(k, first if l == lab else l, oo) for (k, l, oo) in desc[x]]
+                    desc[other] = [(k, first if l == lab else l, oo) for (k, l, oo) in desc[other]]
+                    did = True
+                if did:
+                    return True      # one bead per fragment set: a second sharing could meet the first one's label
+    return did
+
+
 def group_levels(rng, base, nlevels, p_share=0.0):
     """base: nx graph, nodes named by 'fragname', edge 'order'.  Group bottom-up into nlevels
     intermediate levels; with p_share an inter-group connection is made by SHARING one end node
@@ -642,6 +694,7 @@ def group_levels(rng, base, nlevels, p_share=0.0):
                 between[frozenset((wpart[a], wpart[b]))] += 1
         if any(v > 4 for v in between.values()):
             return None
+        share_label_on_a_bead(rng, desc, wpart)
         for n in desc:
             rng.shuffle(desc[n])
         frs = {}
@@ -748,6 +801,7 @@ def random_coarse_cut_case(rng, n):
             cutcount[frozenset((part[a], part[b]))] += 1
     if any(v > 4 for v in cutcount.values()):
         return None
+    shared_label = share_label_on_a_bead(rng, desc, part)
     for n_ in desc:
         rng.shuffle(desc[n_])
     frags = {}
@@ -775,7 +829,7 @@ def random_coarse_cut_case(rng, n):
                 truth={'nodes': [[x, d['name']] for x, d in g.nodes(data=True)],
                        'edges': [[a, b, d['order']] for a, b, d in g.edges(data=True)]},
                 features=sorted({'coarse_last'} | ({'base_order_ge2'} if any(v >= 2 for v in cutcount.values()) else set())
-                                | ({'ion_style_bead_names'} if ion_names else set())),
+                                | ({'ion_style_bead_names'} if ion_names else set()) | ({'one_bead_carries_the_same_descriptor_twice'} if shared_label else set())),
                 nheavy=n, nfrag=nparts, ncuts=sum(cutcount.values()))
 
 
